@@ -852,6 +852,15 @@ def dm_rules(run, db):
     run.check(arg_of(sf, 'warp', 1) == 'self.projx' and arg_of(sb, 'warp', 1) == 'self.invprojx' and arg_of(sf, 'warp', 2) == 'self.projy' and arg_of(sb, 'warp', 2) == 'self.invprojy',
               'C06.dm', fb.qual, 'warp coordinates', 'forward warps with proj, companion with invproj', 'warp coordinate sets do not correspond (forward %s, companion %s)' % (arg_of(sf, 'warp', 1), arg_of(sb, 'warp', 1)), fb.loc())
     tfb = arg_of(sb, 'apply_transfer_functions', 2)
+    # a local that holds the filter list is looked through (adjoint_tf = [np.conj(tf) for tf in self.tf])
+    for _ in range(3):
+        if tfb is not None and tfb.isidentifier():
+            defs = [n for n in walk_no_nested(fb.node) if isinstance(n, ast.Assign) and len(n.targets) == 1 and isinstance(n.targets[0], ast.Name) and n.targets[0].id == tfb]
+            if len(defs) != 1:
+                break
+            tfb = ast.unparse(defs[0].value)
+    if tfb is None or 'self.tf' not in tfb:
+        raise AnalysisError('DM.render_backprop: which transfer functions the companion filters with (%s) is not followed back to self.tf' % tfb)
     run.check(arg_of(sf, 'apply_transfer_functions', 2) == 'self.tf' and tfb is not None and 'conj' in tfb and 'self.tf' in tfb, 'C06.dm', fb.qual, 'transfer function',
               'companion filters with conj(tf)', 'companion filters with %s' % tfb, fb.loc())
     # scatter / gather
